@@ -4,7 +4,9 @@
      schedule = comma separated thread ids ("-" = empty): the step sequence the harness drove
                 the implementation through
    output:  <status> E:<events> R:<results per thread> H:<refs.calls.done.shut per hook> M:<enabled mask per step + final>
-   status = done | stuck | cut | bad@k (thread scheduled at position k has no enabled step in the model) *)
+   status = done | stuck | cut | bad@k (thread scheduled at position k has no enabled step in the model)
+   kind "mis" = the generator deliberately broke the caller contract (Release of the client a running
+   Fulfill was given): the model sets its misuse flag there; for every other kind a set flag is reported. *)
 open Model
 open Zutil
 
@@ -41,18 +43,18 @@ let mask fixed g =
   for t = 0 to k - 1 do if enabled fixed g (n t) then m := !m lor (1 lsl t) done;
   !m
 
-let show fixed g status masks =
+let show kind fixed g status masks =
   let ev = String.concat "," (List.rev_map show_ev g.events) in
   let rs = String.concat ";" (List.map (fun th -> String.concat "" (List.rev_map show_res th.t_res)) g.threads) in
   let hs = String.concat "," (List.map (fun h ->
       Printf.sprintf "%d.%d.%d.%d" (int_of_z h.h_refs) (int_of_z h.h_calls) (if h.h_done then 1 else 0) (int_of_z h.h_shut)) g.hooks) in
   Printf.sprintf "%s E:%s R:%s H:%s M:%s%s" status ev rs hs
     (String.concat "." (List.rev_map (Printf.sprintf "%x") masks))
-    (if g.misuse then " misuse" else "")
+    (if g.misuse && kind <> "mis" then " unexpected-misuse" else "")
 
 let () = iter_lines (fun line ->
   match split_ws line with
-  | _kind :: fx :: progs :: sched :: _ ->
+  | kind :: fx :: progs :: sched :: _ ->
     let fixed = (fx = "1") in
     let g0 = init (parse_progs progs) in
     let rec go g sched k masks =
@@ -61,10 +63,10 @@ let () = iter_lines (fun line ->
       | [] ->
         let unf = List.exists unfinished g.threads in
         let status = if not unf then "done" else if m = 0 then "stuck" else "cut" in
-        show fixed g status (m :: masks)
+        show kind fixed g status (m :: masks)
       | t :: r ->
         (match step fixed g (n t) with
-         | None -> show fixed g (Printf.sprintf "bad@%d" k) (m :: masks)
+         | None -> show kind fixed g (Printf.sprintf "bad@%d" k) (m :: masks)
          | Some g' -> go g' r (k + 1) (m :: masks))
     in
     print_endline (go g0 (parse_sched sched) 0 [])
